@@ -28,7 +28,11 @@ Fixpoint model_trace (names : list Z) (s : state) (steps : list step) : case :=
 Fixpoint run_consistent (s : state) (h : list step) : bool :=
   match h with
   | [] => true
-  | st :: h' => (match snd st with OSvc evs => sevs_consistent s (fst st) evs | _ => true end)
+  | st :: h' => (match snd st with
+                 | OSvc evs => sevs_consistent s (fst st) evs
+                 | OPrice n code d => eqb (price_request s (fst st) n) (code, d)
+                 | _ => true
+                 end)
                 && run_consistent (exec_state s st) h'
   end.
 
@@ -36,7 +40,9 @@ Fixpoint run_consistent (s : state) (h : list step) : bool :=
 Definition output_ok (o : output) : Prop := forall k d, In (k, Some d) o -> in_range (q_of_dec d).
 Definition sev_ok (e : sev) : Prop :=
   match e with SDone _ _ _ outs tol => tol < 0 \/ (forall o, In o outs -> output_ok o) | _ => True end.
-Definition step_ok (st : step) : Prop := match snd st with OSvc evs => Forall sev_ok evs | _ => True end.
+(** ... and the price service is asked about observed feeds only *)
+Definition step_ok (names : list Z) (st : step) : Prop :=
+  match snd st with OSvc evs => Forall sev_ok evs | OPrice n _ _ => In n names | _ => True end.
 
 Lemma qzero_in_range : in_range qzero.
 Proof. split; vm_compute; reflexivity. Qed.
@@ -61,6 +67,12 @@ Proof.
   apply andb_prop in H. destruct H as [H1 H2]. rewrite (IH _ H2), andb_true_r.
   unfold step_wfb. destruct (snd st); try reflexivity. apply sevs_consistent_wfb. exact H1.
 Qed.
+
+Lemma price_request_model s now name :
+  price_request s now name
+  = price_answer (match fo_feed (model_fobs s name) with Some _ => true | None => false end)
+                 (fo_vals (model_fobs s name)) now.
+Proof. unfold price_request, model_fobs, has. destruct (get name (feeds s)); reflexivity. Qed.
 
 (** ** The checker's pieces on equal data *)
 Lemma data_close_refl tol d : 0 <= tol \/ tol < 0 -> data_close tol d d = true.
@@ -228,10 +240,14 @@ Lemma model_fobs_feed s name : fo_feed (model_fobs s name) = option_map feed_pro
 Proof. unfold model_fobs. destruct (get name (feeds s)); reflexivity. Qed.
 
 Definition step_consistent (s : state) (st : step) : bool :=
-  match snd st with OSvc evs => sevs_consistent s (fst st) evs | _ => true end.
+  match snd st with
+  | OSvc evs => sevs_consistent s (fst st) evs
+  | OPrice n code d => eqb (price_request s (fst st) n) (code, d)
+  | _ => true
+  end.
 
-Lemma prop_feed_model s prev st name :
-  Inv s -> KeysInv s -> step_consistent s st = true -> step_ok st ->
+Lemma prop_feed_model names s prev st name :
+  Inv s -> KeysInv s -> step_consistent s st = true -> step_ok names st ->
   (match Check.fobs_of prev name with Some p => p | None => empty_fobs end) = model_fobs s name ->
   prop_feed prev st (outcome_code (fst (exec s st))) (name, model_fobs (exec_state s st) name) = 0.
 Proof.
@@ -263,6 +279,7 @@ Proof.
                            (query_values (snd (exec s (now, OSvc evs))) name) = 0).
         rewrite exec_svc by exact HI. cbn [snd].
         apply expect_sevs_model; try assumption. apply match_vals_old.
+      * apply match_vals_old.
     + rewrite (no_feed_no_values s name HI Hf).
       assert (Hq : query_values (exec_state s (now, o)) name = []).
       { destruct o; unfold exec_state; cbn [exec].
@@ -274,7 +291,8 @@ Proof.
         - change (query_values (snd (exec s (now, OSvc evs))) name = []).
           rewrite exec_svc by exact HI. cbn [snd]. apply no_feed_no_values.
           + apply Inv_do_sevs. exact HI.
-          + rewrite do_sevs_feeds by exact HI. exact Hf. }
+          + rewrite do_sevs_feeds by exact HI. exact Hf.
+        - apply no_feed_no_values; assumption. }
       rewrite Hq. destruct o; reflexivity.
   - (* bounded by latest-history *)
     unfold lh_ok_of. rewrite model_fobs_feed, model_fobs_vals.
@@ -295,13 +313,18 @@ Definition prev_ok (names : list Z) (prev : list (Z * fobs)) (s : state) : Prop 
     (match Check.fobs_of prev name with Some p => p | None => empty_fobs end) = model_fobs s name.
 
 Lemma prop_step_model names s prev st :
-  Inv s -> KeysInv s -> step_consistent s st = true -> step_ok st -> prev_ok names prev s ->
+  Inv s -> KeysInv s -> step_consistent s st = true -> step_ok names st -> prev_ok names prev s ->
   prop_step prev st (mkObs (outcome_code (fst (exec s st))) (observe names (exec_state s st))) = 0.
 Proof.
   intros HI HK Hc Hok Hprev. unfold prop_step. cbn [o_code o_feeds].
+  assert (Hp : price_prop prev st = 0).
+  { unfold price_prop. destruct st as [now o]. cbn [snd fst] in *. destruct o; try reflexivity.
+    unfold step_ok in Hok. cbn [snd] in Hok. unfold step_consistent in Hc. cbn [snd fst] in Hc.
+    cbv zeta. rewrite (Hprev name Hok). rewrite price_request_model in Hc. rewrite Hc. reflexivity. }
+  rewrite Hp. cbn [Z.eqb].
   apply first_nonzero_zero. unfold observe. rewrite map_map. apply Forall_forall. intros z Hz.
   apply in_map_iff in Hz. destruct Hz as (name & <- & Hin).
-  apply prop_feed_model; try assumption. apply Hprev. exact Hin.
+  apply (prop_feed_model names); try assumption. apply Hprev. exact Hin.
 Qed.
 
 Lemma corr_step_model names t s st :
@@ -313,13 +336,19 @@ Proof.
   destruct o.
   1-5: destruct (exec s _) as [oc s'] eqn:E; cbn [fst snd o_code o_feeds] in *;
        rewrite Z.eqb_refl; cbn [andb]; apply corr_feeds_self; exact HI'.
-  rewrite exec_svc in * by exact HI. cbn [fst snd o_code o_feeds outcome_code] in *.
-  rewrite Hc. replace (eqb Ok Ok) with true by reflexivity. cbn [Z.eqb negb andb].
-  apply corr_feeds_self. exact HI'.
+  1: rewrite exec_svc in * by exact HI; cbn [fst snd o_code o_feeds outcome_code] in *.
+  - rewrite Hc. replace (eqb Ok Ok) with true by reflexivity. cbn [Z.eqb negb andb].
+    apply corr_feeds_self. exact HI'.
+  - cbn [exec fst snd o_code o_feeds outcome_code] in *.
+    assert (Hp : price_corr t s now name code data = true).
+    { unfold price_corr. apply (proj1 (Prelude.eqb_true_iff _ _)) in Hc. rewrite Hc. rewrite Z.eqb_refl. cbn [andb].
+      destruct (get name (feeds s)); [|apply Z.eqb_refl].
+      destruct (rev (feed_vals s name)) as [|[bc v] r]; [apply Z.eqb_refl|]. apply data_close_refl. lia. }
+    rewrite Hp. cbn [Z.eqb andb]. apply corr_feeds_self. exact HI'.
 Qed.
 
 Lemma model_passes_check_from names steps : forall s t prev i,
-  Inv s -> KeysInv s -> run_consistent s steps = true -> Forall step_ok steps -> prev_ok names prev s ->
+  Inv s -> KeysInv s -> run_consistent s steps = true -> Forall (step_ok names) steps -> prev_ok names prev s ->
   check_from s t prev (model_trace names s steps) i (-1) (-1) 0 = (-1, -1, 0).
 Proof.
   induction steps as [|st steps IH]; intros s t prev i HI HK Hc Hok Hprev; [reflexivity|].
@@ -343,7 +372,7 @@ Proof. intros name _. reflexivity. Qed.
 (** every history that is consistent with the service module's own bookkeeping and whose response
     values are in the float64 range: the model's trace passes both halves of the checker *)
 Lemma model_passes_check_lemma (names : list Z) (steps : list step) :
-  run_consistent init steps = true -> Forall step_ok steps ->
+  run_consistent init steps = true -> Forall (step_ok names) steps ->
   check_case (model_trace names init steps) = (-1, -1, 0).
 Proof.
   intros Hc Hok. unfold check_case.
@@ -392,7 +421,7 @@ Proof.
 Qed.
 
 Lemma model_passes_check_c_lemma (names : list Z) (steps : list step) :
-  run_consistent init steps = true -> Forall step_ok steps ->
+  run_consistent init steps = true -> Forall (step_ok names) steps ->
   check_case_c (compress_from [] (model_trace names init steps)) = (-1, -1, 0).
 Proof.
   intros Hc Hok. unfold check_case_c. rewrite expand_compress. apply model_passes_check_lemma; assumption.
